@@ -1654,6 +1654,7 @@ void vf_slice_6()
 #include <fcppt/io/read.hpp>
 #include <fcppt/io/read_chars.hpp>
 #include <fcppt/io/stream_to_string.hpp>
+#include <fcppt/io/widen_string.hpp>
 
 #include <bit>
 
@@ -1787,8 +1788,49 @@ void io_extract_one(char const *tname, std::vector<std::basic_string<Ch>> const 
                 });
 }
 
+// Objects that a factory function returns must not depend on the lifetime of the factory's ARGUMENTS: the object made by
+// io::widen_string from a string that is gone by the time it is streamed (a temporary, a local that went out of scope)
+void io_object_lifetimes()
+{
+  std::string const e = "io::widen_string(object-outlives-its-argument)";
+  if (!vf::entry_enabled(e))
+    return;
+  vf::set_entry(e);
+  std::uint64_t calls = 0;
+  for (std::size_t len : {std::size_t{0}, std::size_t{1}, std::size_t{15}, std::size_t{16}, std::size_t{40}, std::size_t{300}})
+  {
+    if (!my_item())
+      continue;
+    if (!vf::begin_case("string of %zu characters: from a temporary, from a local that is destroyed, streamed afterwards", len))
+      continue;
+    vf::note_distinct(vf::hash_mix(vf::hash_str(e), len));
+    std::string want;
+    for (std::size_t i = 0; i < len; ++i)
+      want += static_cast<char>('a' + i % 26);
+    guard(wl_none, [&] {
+      auto const from_temporary = fcppt::io::widen_string(std::string(want)); // the temporary dies here
+      auto const from_local = [&want] {
+        std::unique_ptr<std::string> local(new std::string(want));
+        auto w = fcppt::io::widen_string(*local);
+        local.reset();
+        return w;
+      }();
+      std::wostringstream o1, o2;
+      o1 << from_temporary;
+      o2 << from_local;
+      std::wstring const ww(want.begin(), want.end());
+      if (o1.str() != ww || o2.str() != ww)
+        vf::count("observed/widen_string/text-differs");
+    });
+    VF_COUNT("bucket/io-object-streamed-after-its-argument-died");
+    ++calls;
+  }
+  vf::count("calls/" + e, calls);
+}
+
 void io_all()
 {
+  io_object_lifetimes();
   std::vector<std::string> const texts{"", "7", "12345 678", "-42 x", "3.25e2", "hello world", " \t\n", std::string("\0\1\2\3\4\5\6\7\x08\x09", 10),
                                        "99999999999999999999 1", "\xff\xfe\xfd\xfc"};
   std::vector<std::wstring> wtexts;
@@ -3081,7 +3123,7 @@ void body()
         "faults/throw/reached/exceptions-off", "faults/throw/reached/exceptions-on", "faults/eof/reached",
         "parse-faults/throw/reached/exceptions-off", "parse-faults/throw/reached/exceptions-on", "streams/istringstream",
         "bucket/reverse_mem/empty-block", "bucket/raw_vector/aliased-value-while-reallocating",
-        "bucket/phrase_parse_stream/handed-over-in-a-failed-state"})
+        "bucket/phrase_parse_stream/handed-over-in-a-failed-state", "bucket/io-object-streamed-after-its-argument-died"})
     vf::require_bucket(b);
   // an entry family that never returned both outcomes where both are possible makes the run inconclusive
   for (char const *f : {"ceil_div", "ceil_div_signed", "div", "mod", "clamp", "div-float", "mod-float", "clamp-float", "truncation_check",
